@@ -431,6 +431,24 @@ def _wrap_method(cls, name, fn):
                     st.constructing.pop(id(self), None)
                 else:
                     st.constructing[id(self)] = c
+        if boundary and "WF" in st.monitors and st.rec is not None and not is_ctor and (
+                name not in MUTATORS):
+            # jax arrays are immutable, so two objects can only share mutable state by *being*
+            # the same object: an operation that hands back its receiver or one of its operands
+            # makes every later in-place mutator (update, normalize, update_Sigma) act on both
+            outs = []
+            _collect(res, outs)
+            ins = []
+            _collect(self, ins)
+            _collect(list(args), ins)
+            _collect(list(kwargs.values()), ins)
+            for o in outs:
+                if any(o is i for i in ins):
+                    _count("WF", f"{key}[{flags}]")
+                    _report("WF", "result-is-operand", f"{key}[{flags}]",
+                            {"class": type(o).__name__,
+                             "which": "receiver" if o is self else "argument"})
+                    break
         if boundary and st.monitors and st.rec is not None:
             objs = []
             _collect(self, objs)
